@@ -260,7 +260,9 @@ fn sign_query_ext(r: &mut Req, ts: &str, region: &str, service: &str, s3: bool, 
     Some(())
 }
 static LAST_TOKEN: std::sync::Mutex<Option<Option<String>>> = std::sync::Mutex::new(None);
+static PROVIDER_CALLS: std::sync::atomic::AtomicUsize = std::sync::atomic::AtomicUsize::new(0);
 async fn provider(req: GetSigningKeyRequest) -> Result<GetSigningKeyResponse, BoxError> {
+    PROVIDER_CALLS.fetch_add(1, std::sync::atomic::Ordering::SeqCst);
     *LAST_TOKEN.lock().unwrap() = Some(req.session_token().map(|s| s.to_string()));
     let k = KSecretKey::from_str(SECRET).unwrap();
     let sk = k.to_ksigning(req.request_date(), req.region(), req.service());
@@ -911,6 +913,23 @@ fn model_verdict(r: &Req, c: &Cfg) -> Result<(Option<String>, usize), (&'static 
 }
 
 static DIFF_HIST: std::sync::Mutex<Vec<(String, usize)>> = std::sync::Mutex::new(Vec::new());
+/// does the model reach the key provider (rules 1-13 pass), and with which session token?
+fn model_provider(r: &Req, c: &Cfg) -> (bool, Option<Vec<u8>>) {
+    match model_verdict(r, c) {
+        Ok(_) | Err((_, "C01")) => {
+            let hv: Vec<(String, Vec<u8>)> = r.headers.iter().map(|(k, v)| (k.to_lowercase(), collapse_trim(v.as_bytes()))).collect();
+            let tok = if hv.iter().any(|h| h.0 == "authorization") {
+                hv.iter().find(|h| h.0 == "x-amz-security-token").map(|h| h.1.clone())
+            } else {
+                let mut pairs = parse_query(r.query.as_bytes()).unwrap_or_default();
+                if let (true, Ok(t)) = (c.fold && model_verdict(r, c).map(|o| o.0.is_some()).unwrap_or(false), std::str::from_utf8(&r.body)) { pairs.extend(parse_query(t.as_bytes()).unwrap_or_default()); }
+                pairs.iter().find(|p| p.0 == b"X-Amz-Security-Token").map(|p| decode(&p.1, false).unwrap())
+            };
+            (true, tok)
+        }
+        _ => (false, None),
+    }
+}
 fn xorshift(x: &mut u64) -> u64 { *x ^= *x << 13; *x ^= *x >> 7; *x ^= *x << 17; *x }
 /// Randomised differential test of sigv4_validate_request against the reference model. BOUNDED: `budget` requests from the seed.
 fn search_differential(seed: u64, budget: usize, want: Option<&str>) -> (usize, Option<Value>) {
@@ -1020,7 +1039,11 @@ fn search_differential(seed: u64, budget: usize, want: Option<&str>) -> (usize, 
         let opt = match (cfg.s3, cfg.fold) { (false, false) => SignatureOptions::default(), (true, false) => SignatureOptions::S3, (false, true) => SignatureOptions::url_encode_form(),
             (true, true) => SignatureOptions { s3: true, url_encode_form: true } };
         if r.path.contains('+') { continue; } // D6 (open known finding): raw + in paths is outside the relativised contract
+        PROVIDER_CALLS.store(0, std::sync::atomic::Ordering::SeqCst);
+        *LAST_TOKEN.lock().unwrap() = None;
         let real = validate_with(&r, cfg.now, cfg.region, cfg.service, opt, &reqs);
+        let real_calls = PROVIDER_CALLS.load(std::sync::atomic::Ordering::SeqCst);
+        let real_token = LAST_TOKEN.lock().unwrap().clone();
         if matches!(&real, Err(e) if e.starts_with("http:")) { continue; } // the http crate refused to build the request: not an input
         let model = model_verdict(&r, &cfg);
         {
@@ -1041,6 +1064,18 @@ fn search_differential(seed: u64, budget: usize, want: Option<&str>) -> (usize, 
             (Err(_), Err(k)) => vec!["C13", k.1],
             (Ok(_), Ok((muri, _))) => if muri.is_some() { vec!["C15", "C12"] } else { vec!["C15"] },
         };
+        // C14 / C19: the provider is asked exactly when rules 1-13 pass, once, with the carrier's first session token
+        if !matches!(&real, Err(e) if e == "PANIC") {
+            let (asked, tok) = model_provider(&r, &cfg);
+            let tok_s = tok.map(|t| t.iter().map(|b| *b as char).collect::<String>());
+            let calls_ok = real_calls == if asked { 1 } else { 0 };
+            let token_ok = !asked || real_calls != 1 || real_token == Some(tok_s.clone());
+            if (!calls_ok && want.map(|w| w == "C14").unwrap_or(true)) || (!token_ok && want.map(|w| w == "C19" || w == "C03").unwrap_or(true)) {
+                return (n, Some(json!({"fn": "sigv4_validate_request", "case": "differential: key provider interaction differs from the reference model", "seed": seed, "case_no": n,
+                    "speaks_about": if !calls_ok { vec!["C14"] } else { vec!["C19", "C03"] }, "method": r.method, "path": r.path, "query": r.query, "headers": r.headers, "body_hex": hex::encode(&r.body),
+                    "model_provider_asked": asked, "model_token": tok_s, "real_calls": real_calls, "real_token": format!("{:?}", real_token), "real": format!("{:?}", real)})));
+            }
+        }
         if !agree && want.map(|w| about.contains(&w)).unwrap_or(true) {
             return (n, Some(json!({"fn": "sigv4_validate_request", "case": "differential: the reference model of the whole validation and the crate disagree", "seed": seed, "case_no": n, "speaks_about": about,
                 "method": r.method, "path": r.path, "query": r.query, "headers": r.headers, "body_hex": hex::encode(&r.body),
@@ -1691,7 +1726,7 @@ fn searches_for(pid: &str, strict_d6: bool) -> Vec<(&'static str, (usize, Option
     if all || pid == "C11" || pid == "C19" {
         v.push(("carriers", search_carriers()));
     }
-    if ["C01", "C02", "C03", "C04", "C05", "C09", "C10", "C11", "C12", "C13", "C15", "C16", "C19"].contains(&pid) {
+    if ["C01", "C02", "C03", "C04", "C05", "C09", "C10", "C11", "C12", "C13", "C14", "C15", "C16", "C19"].contains(&pid) {
         let seed: u64 = std::env::var("VERIF_SEED").ok().and_then(|s| s.parse().ok()).unwrap_or(0);
         let budget: usize = std::env::var("VERIF_DIFF_BUDGET").ok().and_then(|s| s.parse().ok()).unwrap_or(100_000);
         v.push(("differential", search_differential(seed, budget, Some(if pid == "C11" { "C01" } else { pid }))));
